@@ -335,7 +335,9 @@ void entry_records(int ch, cps_t const &text)
 template <typename Ch>
 void scan_record(int ch, cps_t const &text, std::size_t k)
 {
-  vj::begin_call("{\"f\":\"scan\",\"ch\":" + std::to_string(ch) + ",\"text\":" + vj::arr(text) + ",\"k\":" + std::to_string(k));
+  // (22 million of these in the thorough tier: written without the per-call flush of begin_call; a
+  // crash is reproduced from the harness arguments instead)
+  std::string const head{"{\"f\":\"scan\",\"ch\":" + std::to_string(ch) + ",\"text\":" + vj::arr(text) + ",\"k\":" + std::to_string(k)};
   std::basic_istringstream<Ch> iss{to_string<Ch>(text)};
   iss.unsetf(std::ios_base::skipws);
   fcppt::parse::detail::stream<Ch> st{fcppt::reference_to_base<std::basic_istream<Ch>>(fcppt::make_ref(iss))};
@@ -366,7 +368,7 @@ void scan_record(int ch, cps_t const &text, std::size_t k)
   {
     exc = 1;
   }
-  vj::end_call(",\"exc\":" + std::to_string(exc) + ",\"p1\":" + vj::arr(p1) + ",\"c1\":" + vj::arr(c1) + ",\"p2\":" + vj::arr(p2) + ",\"c2\":" + vj::arr(c2) + "}");
+  vj::line(head + ",\"exc\":" + std::to_string(exc) + ",\"p1\":" + vj::arr(p1) + ",\"c1\":" + vj::arr(c1) + ",\"p2\":" + vj::arr(p2) + ",\"c2\":" + vj::arr(c2) + "}");
 }
 
 template <typename Ch>
